@@ -239,17 +239,20 @@ pub fn check(c: &Case) -> CheckResult {
         .class(if c.storage { "storage" } else { "no-storage" }))
 }
 
+/// more log messages: unknown MSTP 4..5 -> log
+pub fn more_logs(mut m: RMsg) -> RMsg {
+    if let Some(e) = &mut m.ext {
+        if e.msin & 0x0c == 0x08 {
+            e.msin &= 0xf1;
+        }
+    }
+    m
+}
+
 pub fn strategy() -> impl Strategy<Value = Case> {
     any::<bool>().prop_flat_map(|storage| {
         let st = if storage { g::StorageMode::Always } else { g::StorageMode::Never };
-        let m = g::message(g::MsgParams { storage: st, large: false, pool_ids: true, ..Default::default() }).prop_map(|mut m| {
-            if let Some(e) = &mut m.ext {
-                if e.msin & 0x0c == 0x08 {
-                    e.msin &= 0xf1; // more log messages: unknown MSTP 4..5 -> log
-                }
-            }
-            m
-        });
+        let m = g::message(g::MsgParams { storage: st, large: false, pool_ids: true, ..Default::default() }).prop_map(more_logs);
         (vec(m, 0..40), vec(any::<u16>(), 0..5), vec(any::<u16>(), 0..6), vec(any::<(u16, u16)>(), 6)).prop_map(move |(msgs, splits, order, merges)| Case { storage, msgs, splits, order, merges })
     })
 }
